@@ -243,6 +243,102 @@ def native_fully_shard(world, seed, steps=3):
     return (bad[0] if bad else None), (shapes, hist)
 
 
+_MESH_TLS = None
+
+
+def native_hybrid_shard(R, S, ntpg, comm, cp, seed, steps=5):
+    """The real HybridShardDistributor on every rank of a (replicate R x shard S) mesh of simulated ranks: every rank's local shard equals serial
+    Shampoo on that local tensor (FP32 communication), replicas are bit-identical (every setting); includes a parameter that NEVER receives a
+    gradient (must stay untouched), parameters with empty local shards and single absences that never starve a rank (F5 of C06)."""
+    import threading
+    import torch
+    from distributed_shampoo import shampoo_types as st
+    from distributed_shampoo.utils import shampoo_hybrid_shard_distributor as hmod
+    global _MESH_TLS
+    if _MESH_TLS is None:
+        _MESH_TLS = threading.local()
+
+    def per_thread_mesh(device_type, mesh, mesh_dim_names=None):
+        from torch.distributed.device_mesh import DeviceMesh
+        cache = _MESH_TLS.__dict__.setdefault("cache", {})
+        key = (device_type, mesh, mesh_dim_names)
+        if key not in cache:
+            cache[key] = DeviceMesh(device_type=device_type, mesh=mesh, mesh_dim_names=mesh_dim_names)
+        return cache[key]
+
+    shapes = [(4, 3), (1, 3), (6,), (2, 5), (4, 2), (3, 2)]
+    dead = 5  # never receives a gradient
+    absent = [set(), {0}, set(), {2}, {3}][:steps]
+    cdt = dict(f32=st.CommunicationDType.FP32, bf16=st.CommunicationDType.BF16, f16=st.CommunicationDType.FP16)[comm]
+    kw = dict(lr=0.05, betas=(0.9, 0.99), epsilon=1e-8, momentum=0.5, weight_decay=1e-3, max_preconditioner_dim=8, precondition_frequency=1,
+              start_preconditioning_step=2, use_decoupled_weight_decay=True, grafting_config=st.AdaGradGraftingConfig(epsilon=1e-8))
+
+    def full(shape, sd):
+        return torch.randn(shape, generator=torch.Generator().manual_seed(sd))
+
+    def fn(rank):
+        from torch.distributed.device_mesh import init_device_mesh
+        from torch.distributed.tensor import Replicate, Shard, distribute_tensor
+        from distributed_shampoo.distributed_shampoo import DistributedShampoo
+        mesh = init_device_mesh("cpu", (R, S), mesh_dim_names=("replicate", "shard"))
+        pl = [Replicate(), Shard(0)]
+        dparams = [torch.nn.Parameter(distribute_tensor(full(sh, seed * 1000 + i), mesh, pl)) for i, sh in enumerate(shapes)]
+        keep = [i for i, p in enumerate(dparams) if p.to_local().numel() > 0]
+        sparams = {i: torch.nn.Parameter(dparams[i].to_local().detach().clone()) for i in keep}
+        init_dead = dparams[dead].to_local().detach().clone()
+        hopt = DistributedShampoo(dparams, distributed_config=st.HybridShardShampooConfig(device_mesh=mesh, communication_dtype=cdt, num_trainers_per_group=ntpg,
+                                                                                         communicate_params=cp), **kw)
+        sopt = DistributedShampoo([sparams[i] for i in keep], **kw)
+        traj = []
+        for t, ab in enumerate(absent):
+            for i, (p, sh) in enumerate(zip(dparams, shapes)):
+                if i in ab or i == dead:
+                    p.grad = None
+                    if i in sparams:
+                        sparams[i].grad = None
+                    continue
+                g = distribute_tensor(full(sh, 7919 * (t + 1) + i + seed), mesh, pl)
+                p.grad = g
+                if i in sparams:
+                    sparams[i].grad = g.to_local().detach().clone()
+            hopt.step()
+            sopt.step()
+            if not torch.equal(dparams[dead].to_local(), init_dead):
+                return f"rank {rank} step {t + 1}: a parameter that never received a gradient was modified"
+            if comm == "f32":
+                for i in keep:
+                    if not torch.allclose(dparams[i].to_local(), sparams[i].detach(), rtol=1e-5, atol=1e-6):
+                        return f"rank {rank} step {t + 1}: local shard of parameter {i} differs from serial Shampoo on that local tensor (max {float((dparams[i].to_local() - sparams[i].detach()).abs().max()):.3e})"
+            traj.append([p.to_local().detach().clone() for p in dparams])
+        return (mesh.get_local_rank(1), traj)
+
+    saved = hmod.get_device_mesh
+    hmod.get_device_mesh = per_thread_mesh
+    try:
+        try:
+            res = D.threaded(R * S, fn, timeout=120)
+        except TimeoutError:
+            return "HANG: the simulated ranks did not finish (a collective is not matched on all ranks)"
+        except BaseException as e:  # noqa
+            return f"raised {type(e).__name__}: {str(e)[:300]}"
+    finally:
+        hmod.get_device_mesh = saved
+    msgs = [v for v in res.values() if isinstance(v, str)]
+    if msgs:
+        return msgs[0]
+    by = {}
+    for rank, (sr, traj) in res.items():
+        by.setdefault(sr, []).append((rank, traj))
+    for sr, lst in by.items():
+        r0, t0 = lst[0]
+        for rank, traj in lst[1:]:
+            for t in range(len(traj)):
+                for i in range(len(shapes)):
+                    if not torch.equal(traj[t][i], t0[t][i]):
+                        return f"step {t + 1}: replicas disagree on shard {sr} of parameter {i} (rank {rank} vs {r0}); comm={comm} communicate_params={cp}"
+    return None
+
+
 def bounded(tier, seed):
     n = 3 if tier == "quick" else 20
     evals, viol, distinct = 0, [], set()
@@ -254,8 +350,22 @@ def bounded(tier, seed):
             if bad and len(viol) < 5:
                 viol.append(dict(ob=f"bounded/fully-shard-vs-serial[world={world},seed={seed * 100 + k}]", func="FullyShardDistributor", input=dict(world=world, shapes=info[0], history=info[1]),
                                  text=bad, detail=bad, replay=dict(kind="fs_case", world=world, seed=seed * 100 + k)))
+    import itertools
+    combos = [(2, 2, -1)] if tier == "quick" else [(2, 2, -1), (4, 1, 2), (2, 1, -1)]
+    for (R, S, ntpg), comm, cp in itertools.product(combos, ("f32", "bf16"), (False, True)):
+        for k in range(1 if tier == "quick" else 2):
+            try:
+                bad = native_hybrid_shard(R, S, ntpg, comm, cp, seed * 10 + k)
+            except BaseException as e:  # noqa
+                bad = f"raised {type(e).__name__}: {str(e)[:300]}"
+            evals += 1
+            distinct.add(("hybrid", R, S, ntpg, comm, cp, k))
+            if bad and len(viol) < 5:
+                viol.append(dict(ob=f"bounded/hybrid-shard[{R}x{S},group={ntpg},{comm},params={cp},seed={seed * 10 + k}]", func="HybridShardDistributor",
+                                 input=dict(mesh=[R, S], num_trainers_per_group=ntpg, comm=comm, communicate_params=cp), text=bad, detail=bad,
+                                 replay=dict(kind="hybrid_case", R=R, S=S, ntpg=ntpg, comm=comm, cp=cp, seed=seed * 10 + k)))
     return dict(evaluations=evals, distinct_nontrivial=len(distinct),
-                rule="dim-0 sharded DTensor parameters on simulated ranks (threads), shapes with fewer rows than ranks (empty local shards), absent gradients: each rank's local shard == serial Shampoo on that local tensor; distinct = distinct (world, shapes, history)",
+                rule="(HybridShard: the real distributor on replicate x shard meshes of simulated ranks, incl. a never-updated parameter, empty local shards, single absences: local shard == serial for FP32, replicas bit-identical for every setting) + dim-0 sharded DTensor parameters on simulated ranks (threads), shapes with fewer rows than ranks (empty local shards), absent gradients: each rank's local shard == serial Shampoo on that local tensor; distinct = distinct (world, shapes, history)",
                 samples=[dict(world=3, shapes=[(1, 3), (4,), (2, 2)])], bound=f"world 2..4, {n} seeds each, 3 steps", violations=viol)
 
 
@@ -265,6 +375,19 @@ def replay(r):
 
 def replay_file(doc):
     rp = doc.get("replay_input") or {}
+    if rp.get("kind") == "hybrid_case":
+        bad = native_hybrid_shard(rp["R"], rp["S"], rp["ntpg"], rp["comm"], rp["cp"], rp["seed"])
+        return bool(bad), f"{rp}: {bad}"
+    if rp.get("kind") == "ddp_native":
+        import itertools
+        for (R, S, ntpg), comm, cp, k in itertools.product(((2, 2, -1), (4, 1, 2)), ("bf16", "f32"), (True, False), (0, 1)):
+            try:
+                bad = native_hybrid_shard(R, S, ntpg, comm, cp, k)
+            except BaseException as e:  # noqa
+                bad = f"raised {type(e).__name__}: {str(e)[:300]}"
+            if bad:
+                return True, f"mesh {R}x{S} trainers_per_group={ntpg} {comm} communicate_params={cp} seed {k}: {bad}"
+        return False, "real HybridShard on simulated 2-D meshes: local shards equal serial, replicas agree, never-updated parameter untouched"
     if rp.get("kind") == "fs_case":
         bad, info = native_fully_shard(rp["world"], rp["seed"])
         return bool(bad), f"{info}: {bad}"
